@@ -38,6 +38,9 @@ ASSUMPTIONS = [
     "each EdgeAssemblyChanger is used for one add (+ optional remove) as the armi callers do; restore is only called on the "
     "changer that converted; one ThirdCoreHexToFullCoreChanger object may serve several convert/restore rounds (restore ends with "
     "reset()), and a second restore right after a restore has nothing to undo ('if bool(self._newAssembliesAdded)') and must change nothing",
+    "manual zones come from the zoneDefinitions setting through Core.buildManualZones and are disjoint; after convert a zone holds its "
+    "locations plus the 120/240-degree images of its member assemblies ('thisZone.addLoc(newAssem.getLocation())'); restore is only "
+    "required not to lose the defined locations (armi leaves the added ones in the zones; not documented either way)",
     "children of blocks with a lattice may sit on a single off-centre site (IndexLocation) or at free coordinates (CoordinateLocation in the "
     "block grid); HexBlock.rotate documents that both are rotated with the block",
     "hex reference geometry vp/model/hexmodel.py (cube-coordinate rotation, symmetry lines) is independent of armi",
